@@ -167,6 +167,15 @@ def toy_case(ctx, rng, idx):
     ctx.count('constructed')
     x = case.point(rng)
     val = _compare(ctx, case, ll, x)
+    if val is not None and idx % 3 == 1:
+        # one work vector updated in place between evaluations (the same
+        # mechanistic values with other error parameters, and vice versa)
+        w = np.array(x, dtype=float)
+        for part in (slice(case.n_mech, None), slice(0, case.n_mech)):
+            w[part] *= 1 + 0.05 * rng.random(len(w[part]))
+            ctx.count('in_place_updates')
+            if _compare(ctx, case, ll, w, tag='buffer') is None:
+                break
     _forms(ctx, rng, case, ll, x, idx)
     # boundary: a non-positive scale scores -inf (oracle: only "-inf")
     if idx % 7 == 0 and not any(len(t) == 0 for t in case.times):
